@@ -544,7 +544,8 @@ def describe(tier, agg):
     spans = agg['sets'].pop('clock_span', set())
     return {
         'rule': 'case = one history of 6-12 operations in one process (RNG re-seed / advance / '
-                'replace, run of one of 3 pooled scenes under a scripted clock, demo(), '
+                'replace, run of one of up to 5 pooled subjects - 3 scenes plus stage-wise '
+                'parameter variants of the same hit tables - under a scripted clock, demo(), '
                 'canonical_demo_data(), mock_layers under tmp_seed, tmp_seed body raising four '
                 'exception kinds, canonical_demo_data with an exception injected at a seeded '
                 'line event of its body), four consecutive histories per process sharing one '
@@ -552,6 +553,8 @@ def describe(tier, agg):
                 'non-trivial = history contains >= 1 RNG perturbation and >= 1 ampycloud call; '
                 'distinct = distinct (pool, op list)',
         'assumptions': [
+            'reference digest of every pooled subject = the subject processed alone in a fork '
+            'taken before anything of the pipeline ran in the process (history-free)',
             'numerical-library thread counts pinned to 1 (the property holds them fixed)',
             'global generator = default MT19937 RandomState; a user swapping the bit generator '
             'class is outside "arbitrary prior global RNG states"',
